@@ -105,7 +105,7 @@ def run_case(case, obs):
     for ci in range(c):
         reqs = reqs_by_client.get(ci, [])
         handed = r["handed"].get(ci, [])
-        smp = samples_by_client.get(goff + ci, [])
+        smp = samples_by_client.get(r["client_ids"][ci], [])
         start_t, start_pc = r["starts"][ci]
         tag = f"client {ci}"
         n = len(reqs)
